@@ -85,6 +85,11 @@ function makeContext(kind, trace) {
   const sandbox = {};
   const ctx = vm.createContext(sandbox);
   const g = vm.runInContext('globalThis', ctx);
+  // Documented exclusions made unobservable instead of merely "not generated": function source text
+  // (a method read from an object and concatenated to a string) and the text of native error messages
+  // (which legitimately mentions renamed identifiers and helper names).
+  vm.runInContext('Function.prototype.toString = function () { return "[fn-source]"; };' +
+    'Error.prototype.toString = function () { return String(this.name); };', ctx);
   const ser = makeSer(g);
   let budget = 4000;
   sandbox.p = function () {
